@@ -552,6 +552,11 @@ class Evaluator(abc.ABC):
                         self.jobs_done.append(job)
                         self.job_id_gathered.append(job.id)
 
+                # All remaining tasks are cancelled and their jobs are recorded above:
+                # nothing is in flight anymore (the tasks belong to the loop closed below).
+                self._tasks_running = []
+                self.job_id_submitted = []
+
         self._tasks_done = []
         self._tasks_pending = []
 
